@@ -77,6 +77,10 @@ func (db *DB) GetBucket(i uint) (*Bucket, error) {
 	if readErr != nil {
 		return nil, readErr
 	}
+	// The hash length comes from the file: it must leave room for the value inside one entry.
+	if int(bucket.HashLen)+int(bucket.OffsetWidth) > int(bucket.Stride) {
+		return nil, fmt.Errorf("corrupt bucket header: hash length %d does not fit entry stride %d", bucket.HashLen, bucket.Stride)
+	}
 	bucket.Entries = io.NewSectionReader(db.Stream, int64(bucket.FileOffset), int64(bucket.NumEntries)*int64(bucket.Stride))
 	if db.prefetch {
 		// TODO: find good value for numEntriesToPrefetch
